@@ -185,3 +185,94 @@ def check_cipher_tables(rep, prog, rid):
     gotc = {k.split('.')[-1]: v for k, v in ct.items() if k.split('.')[-1] in want_c}
     rep.check(gotc == want_c, rid, 'SymmetricKeyAlgorithm.cipher', 'cipher classes', 'each cipher id must be bound to its own block cipher',
               where=cf.where, expected=want_c, found=gotc)
+
+
+def check_pubkey_derivation(rep, prog, rid):
+    """PrivKeyV4.pubkey(): the public packet is built from public classes and from copies of the private packet's own
+    public terms (created, algorithm, public fields, curve id, KDF parameters) - nothing else, nothing recomputed."""
+    from .sigdata import enum_const
+    fi = prog.method('pgpy.packet.packets', 'PrivKeyV4', 'pubkey')
+    rep.saw(fn=fi)
+    # loops: only over the public field names of the private material
+    for n in ast.walk(fi.node):
+        if isinstance(n, ast.For):
+            it = ast.unparse(n.iter)
+            rep.check(it == 'self.keymaterial.__pubfields__', rid, 'PrivKeyV4.pubkey', 'loop over %s' % it,
+                      'only the public field names may be copied into the public packet', where='%s:%d' % (fi.module.relpath, n.lineno),
+                      expected='for pm in self.keymaterial.__pubfields__', found=it)
+    secret_words = ('__privfields__', '__mpis__', 's2k', 'encbytes', 'chksum', '__privkey__')
+    for alg, extra in (('RSAEncryptOrSign', {}), ('DSA', {}), ('ECDSA', {'oid': 'self.keymaterial.oid'}), ('EdDSA', {'oid': 'self.keymaterial.oid'}),
+                       ('ECDH', {'oid': 'self.keymaterial.oid', 'kdf': ('copy.copy(self.keymaterial.kdf)', 'self.keymaterial.kdf')})):
+        sc = Scenario(inline=noinline, bind={'self.pkalg': enum_const(prog, 'PubKeyAlgorithm', alg)})
+        outs = Interp(prog, sc).run(fi)
+        for s in outs:
+            ctor = [c[0] for c in s.calls if c[0] in ('PubKeyV4', 'PubSubKeyV4', 'PrivKeyV4', 'PrivSubKeyV4', 'PubKey', 'PrivKey')]
+            rep.check(bool(ctor) and set(ctor) <= {'PubKeyV4', 'PubSubKeyV4'}, rid, 'PrivKeyV4.pubkey', '%s: constructs %s' % (alg, sorted(set(ctor))),
+                      'the public twin must be a public-key packet class', where=fi.where, scenario=alg)
+            pk = render(s.ret)
+            got = {}
+            for p, v, l, _ in s.stores:
+                if p.startswith(pk + '.'):
+                    got[p[len(pk) + 1:]] = v
+            for c in s.calls:
+                if c[0] == 'setattr' and len(c[1]) == 3 and c[1][0] == pk + '.keymaterial':
+                    got['keymaterial.<%s>' % c[1][1]] = c[1][2]
+            want = {'created': ('self.created',), 'pkalg': ('PubKeyAlgorithm.%s' % alg, 'self.pkalg'),
+                    'keymaterial.<pm>': ('copy.copy(getattr(self.keymaterial, pm))', 'getattr(self.keymaterial, pm)')}
+            for k, v in extra.items():
+                want['keymaterial.%s' % k] = v if isinstance(v, tuple) else (v,)
+            for k, vals in want.items():
+                rep.check(got.get(k) in vals, rid, 'PrivKeyV4.pubkey', '%s: public %s = %s' % (alg, k, got.get(k)),
+                          'the public twin\'s %s must be a copy of the private packet\'s own value (same fingerprint, same behaviour)' % k,
+                          where=fi.where, expected=vals[0], found=got.get(k), scenario=alg)
+            for k, v in got.items():
+                rep.check(k in want and not any(w in v for w in secret_words), rid, 'PrivKeyV4.pubkey', '%s: extra/secret store %s = %s' % (alg, k, v),
+                          'nothing but the public terms may be put into the public packet', where=fi.where, scenario=alg)
+            rep.check(any(c[0] == pk + '.update_hlen' for c in s.calls), rid, 'PrivKeyV4.pubkey', '%s: update_hlen' % alg,
+                      'the public packet length must be recomputed', where=fi.where, scenario=alg)
+
+
+def check_ids_rooted_at_self(rep, prog, rid):
+    """Issuer key id, issuer fingerprint, recipient key id and the key material used all come from the method's own `self`."""
+    K = 'pgpy.pgp'
+    # issuer key id at every PGPSignature.new call
+    for meth in ('sign', 'certify', 'revoke', 'revoker', 'bind'):
+        f = prog.method(K, 'PGPKey', meth)
+        for n in ast.walk(f.node):
+            if isinstance(n, ast.Call) and dotted(n.func) == 'PGPSignature.new':
+                a = [ast.unparse(x) for x in n.args]
+                rep.check(len(a) >= 4 and a[1] == 'self.key_algorithm' and a[3] == 'self.fingerprint.keyid', rid, 'PGPKey.%s' % meth,
+                          'PGPSignature.new(%s)' % ', '.join(a), 'the issuer id and algorithm written must be those of the key that signs (self)',
+                          where='%s:%d' % (f.module.relpath, n.lineno), expected='(.., self.key_algorithm, .., self.fingerprint.keyid)', found=a)
+    nf = prog.method(K, 'PGPSignature', 'new')
+    src = ast.unparse(nf.node)
+    rep.check("addnew('Issuer', _issuer=signer)" in src and 'sigpkt.pubalg = pkalg' in src and 'sigpkt.sigtype = sigtype' in src, rid,
+              'PGPSignature.new', 'issuer/pubalg/sigtype stored', 'the new signature records the given issuer id, algorithm and type', where=nf.where)
+    # _sign: issuer fingerprint and key material
+    f = prog.method(K, 'PGPKey', '_sign')
+    fpr = [n for n in ast.walk(f.node) if isinstance(n, ast.Call) and isinstance(n.func, ast.Attribute) and n.func.attr == 'addnew' and
+           n.args and isinstance(n.args[0], ast.Constant) and n.args[0].value == 'IssuerFingerprint']
+    rep.check(len(fpr) == 1, rid, 'PGPKey._sign', 'IssuerFingerprint sites %d' % len(fpr), 'expected one issuer-fingerprint subpacket', where=f.where)
+    for n in fpr:
+        kw = {k.arg: ast.unparse(k.value) for k in n.keywords}
+        rep.check(kw.get('_issuer_fpr') == 'self.fingerprint' and kw.get('_version') == '4' and kw.get('hashed') == 'True', rid, 'PGPKey._sign',
+                  'IssuerFingerprint(%s)' % kw, 'the issuer fingerprint written must be the fingerprint of the key that signs (self)',
+                  where='%s:%d' % (f.module.relpath, n.lineno), expected='_issuer_fpr=self.fingerprint', found=kw)
+    signs = [n for n in ast.walk(f.node) if isinstance(n, ast.Call) and ast.unparse(n.func).endswith('_key.sign')]
+    rep.check([ast.unparse(n.func) for n in signs] == ['self._key.sign'], rid, 'PGPKey._sign', 'signing call %s' % [ast.unparse(n.func) for n in signs],
+              'the signature must be made with the key material of self', where=f.where)
+    # encrypt: recipient id and key material
+    f = prog.method(K, 'PGPKey', 'encrypt')
+    outs = Interp(prog, Scenario(inline=noinline, join_unknown=True, bind={'message.is_encrypted': Const(False)})).run(f)
+    for s in outs:
+        if s.raised:
+            continue
+        enc = [v for p, v, l, _ in s.stores if p == 'pkesk.encrypter']
+        alg = [v for p, v, l, _ in s.stores if p == 'pkesk.pkalg']
+        esk = [c for c in s.calls if c[0] == 'pkesk.encrypt_sk']
+        rep.check(enc == ["binascii.unhexlify(self.fingerprint.keyid.encode('latin-1'))"] and alg == ['self.key_algorithm'], rid, 'PGPKey.encrypt',
+                  'recipient id %s alg %s' % (enc, alg), 'the recipient key id and algorithm written must be those of the key that encrypts (self)',
+                  where=f.where, expected='unhexlify(self.fingerprint.keyid), self.key_algorithm', found='%s / %s' % (enc, alg))
+        rep.check(len(esk) == 1 and esk[0][1][:1] == ['self._key'], rid, 'PGPKey.encrypt', 'encrypt_sk(%s...)' % (esk[0][1][:1] if esk else None),
+                  'the session key must be encrypted to the key material of self', where=f.where)
+        break
